@@ -49,10 +49,12 @@ type Params struct {
 	MaxRead    int
 	Seed       int64
 	NoWait     bool
-	Stalls     bool // a goroutine may be held up for 5 ms / 1.5 s before an atomic write (a scheduling deviation)
-	RB         int  // reader's buffer size (0 = 4096)
-	SlowReader bool // the reader pauses 1 ms (virtual) between reads: the close overtakes it
-	Raw        bool // drive protocol.Mux directly: the client writes and closes without ever reading
+	// StopAfterClose: right after Close returned, the writer's endpoint (client or server) is stopped
+	StopAfterClose bool
+	Stalls         bool // a goroutine may be held up for 5 ms / 1.5 s before an atomic write (a scheduling deviation)
+	RB             int  // reader's buffer size (0 = 4096)
+	SlowReader     bool // the reader pauses 1 ms (virtual) between reads: the close overtakes it
+	Raw            bool // drive protocol.Mux directly: the client writes and closes without ever reading
 	// CounterFlow: while it reads, the reader's application also writes this many bytes toward
 	// the writer (which never reads them): the writer's session receives data and sends
 	// acknowledgements while its own data and its close are still queued
@@ -73,7 +75,7 @@ func (p Params) String() string {
 	if p.UDP {
 		t = fmt.Sprintf("udp mtu=%d lat=%v faults=%v", p.MTU, p.Latency, p.Faults)
 	}
-	return fmt.Sprintf("%s sizes=%v closer-is-server=%v tp=%s maxread=%d nowait=%v rb=%d slow-reader=%v raw-mux=%v seed=%d", t, p.Sizes, p.ServerSide, p.TP, p.MaxRead, p.NoWait, p.RB, p.SlowReader, p.Raw, p.Seed) + fmt.Sprintf(" counter-flow=%d start-delay=%v pause=%v pinger=%v", p.CounterFlow, p.StartDelay, p.Pause, p.Pinger)
+	return fmt.Sprintf("%s sizes=%v closer-is-server=%v tp=%s maxread=%d nowait=%v rb=%d slow-reader=%v raw-mux=%v seed=%d", t, p.Sizes, p.ServerSide, p.TP, p.MaxRead, p.NoWait, p.RB, p.SlowReader, p.Raw, p.Seed) + fmt.Sprintf(" counter-flow=%d start-delay=%v pause=%v pinger=%v stop-after-close=%v", p.CounterFlow, p.StartDelay, p.Pause, p.Pinger, p.StopAfterClose)
 }
 
 var verbose = false
@@ -122,6 +124,13 @@ func exec(p Params, pats []xfer.NamedTP, ctl *explore.Ctl) explore.Result {
 			t0 := w.S.NowNS()
 			wr.Close()
 			closeTook = time.Duration(w.S.NowNS() - t0)
+			if p.StopAfterClose && !p.Raw {
+				if p.ServerSide {
+					w.OnNode("server", func() { w.Srv.Stop() })
+				} else {
+					w.OnNode("client", func() { w.Cli.Stop() })
+				}
+			}
 		}
 		read := func(rd net.Conn) {
 			if p.CounterFlow > 0 {
@@ -279,6 +288,12 @@ func exec(p Params, pats []xfer.NamedTP, ctl *explore.Ctl) explore.Result {
 	if gap {
 		sig := "tcp/clean-eof-after-prefix"
 		why := ""
+		if !p.UDP && p.StopAfterClose {
+			// a pattern of its own: the underlay's tear-down closes the sessions while received data is
+			// still on its way to the application
+			sig = "tcp/eof-after-prefix/endpoint-stopped-after-close"
+			why = "the writer's endpoint was stopped as soon as its Close returned; the reader was still behind"
+		}
 		if p.UDP {
 			// classify the causal pattern so that a known finding does not hide a different failure
 			faulted := 0
@@ -468,6 +483,25 @@ func units(tier string) []runner.Unit {
 					}})
 				}
 			}
+			// the writer's endpoint is stopped as soon as its Close returned, while the reader is still
+			// behind (slow reader, or a reader that starts late with thousands of segments queued)
+			us = append(us, runner.Unit{Name: fmt.Sprintf("stop-after-close-udp=%v-server-writes=%v", udp, ss), Cost: 4, Run: func(u *runner.U) {
+				i := seed + 40
+				for _, sizes := range [][]int{{1000}, {20000}, many(300, 7), many(4500, 1)} {
+					for _, slow := range []bool{false, true} {
+						if udp && len(sizes) > 1000 {
+							continue
+						}
+						p := Params{UDP: udp, MTU: 1400, Latency: 5 * time.Millisecond, Sizes: sizes, ServerSide: ss, TP: "nil", Seed: int64(i), RB: 4096, SlowReader: slow, StopAfterClose: true}
+						if len(sizes) > 1000 {
+							// thousands of one-byte segments read one at a time: the reader is seconds behind
+							p.RB = 1
+						}
+						i++
+						run(u, p, explore.Bound{})
+					}
+				}
+			}})
 			us = append(us, runner.Unit{Name: fmt.Sprintf("paused-reader-udp=%v-server-writes=%v", udp, ss), Cost: 3, Run: func(u *runner.U) {
 				i := seed + 10
 				for _, pause := range []time.Duration{4 * time.Second, 6 * time.Second, 11 * time.Second, 16 * time.Second} {
